@@ -307,7 +307,7 @@ def history_part(run, bench, rng, nops):
 class Scheduler:
     """Forces an interleaving of field-entry hook points of two threads."""
 
-    def __init__(self, order, timeout=6.0):
+    def __init__(self, order, timeout=90.0):
         self.order = list(order)      # e.g. [0, 1, 1, 0, ...] thread ids, one per hook point
         self.pos = 0
         self.cv = threading.Condition()
@@ -445,8 +445,8 @@ def controlled_part(run, bench, rng, limit):
         t1 = threading.Thread(target=body, args=(1, raw1))
         t0.start()
         t1.start()
-        t0.join(30)
-        t1.join(30)
+        t0.join(240)
+        t1.join(240)
         bench.rec.on_enter = None
         if sched.broken or t0.is_alive() or t1.is_alive():
             run.count("interleaving_watchdog")
